@@ -26,6 +26,7 @@ type SpecEnv struct {
 	rng     *rangeInfo
 	results []Val
 	inOld   bool
+	inAcq   bool
 	depth   int
 }
 
@@ -35,11 +36,15 @@ type SVal struct {
 	Ref   string // struct or array living at this reference (lvalue)
 	IsNil bool
 	Old   bool // produced by old(): contents are to be read in the old heap
+	Acq   bool // produced by acq(): contents are to be read in the acquisition snapshot
 }
 
 func (env *SpecEnv) heap() *State {
 	if env.inOld && env.old != nil {
 		return env.old
+	}
+	if env.inAcq && env.st.acq != nil {
+		return env.st.acq
 	}
 	return env.st
 }
@@ -426,6 +431,9 @@ func (e *Exec) sxIndex(env *SpecEnv, n *ast.IndexExpr) SVal {
 		if x.Old && env.old != nil {
 			hh = env.old
 		}
+		if x.Acq && env.st.acq != nil {
+			hh = env.st.acq
+		}
 		return SVal{T: e.at(el, sel(e.hget(hh, e.elemHeap(el)), "(s_arr "+x.T+")"), "(s_off "+x.T+")", it), Typ: el}
 	case *types.Array:
 		if x.Ref != "" {
@@ -615,6 +623,17 @@ func (e *Exec) sxCall(env *SpecEnv, n *ast.CallExpr) SVal {
 		env.inOld = saved
 		v.Old = true
 		return v
+	case "acq":
+		// acq(e): e evaluated in the state found at the most recent lock acquisition of this activation
+		saved := env.inAcq
+		env.inAcq = true
+		v := e.sx(env, n.Args[0])
+		if v.Ref != "" && v.T == "" {
+			v = SVal{T: e.mat(env, v), Typ: v.Typ}
+		}
+		env.inAcq = saved
+		v.Acq = true
+		return v
 	case "implies":
 		return SVal{T: implies(e.mat(env, e.sx(env, n.Args[0])), e.mat(env, e.sx(env, n.Args[1]))), Typ: boolT}
 	case "iff":
@@ -676,6 +695,9 @@ func (e *Exec) sxCall(env *SpecEnv, n *ast.CallExpr) SVal {
 			}
 		}
 		return SVal{T: sel(e.hget(env.heap(), "G_held"), id), Typ: boolT}
+	case "holdsOnly":
+		id := e.lockID(env, n.Args[0])
+		return SVal{T: fmt.Sprintf("(= %s (store ((as const (Array Int Bool)) false) %s true))", e.hget(env.heap(), "G_held"), id), Typ: boolT}
 	case "locksBelow":
 		// locksBelow(m): every lock this goroutine holds is lower in the declared order than m's class
 		cls := ""
@@ -837,6 +859,18 @@ func (e *Exec) sxCall(env *SpecEnv, n *ast.CallExpr) SVal {
 		b := e.mat(env, e.sx(env, n.Args[0]))
 		i := e.mat(env, e.sx(env, n.Args[1]))
 		return SVal{T: sel(sel(e.hget(env.heap(), "GB_bufdata"), b), fmt.Sprintf("(+ %s %s)", sel(e.hget(env.heap(), "GB_bufrd"), b), i)), Typ: types.Typ[types.Byte]}
+	case "sumInts":
+		// sum of an []int: uninterpreted sum(array, off, len) with the usual unfolding lemma-axioms
+		v := e.sx(env, n.Args[0])
+		hh := env.heap()
+		if v.Old && env.old != nil {
+			hh = env.old
+		}
+		if v.Acq && env.st.acq != nil {
+			hh = env.st.acq
+		}
+		e.sumDecls()
+		return SVal{T: app("isum", sel(e.hget(hh, e.elemHeap(types.Typ[types.Int])), "(s_arr "+v.T+")"), "(s_off "+v.T+")", "(s_len "+v.T+")"), Typ: intT}
 	case "prefix":
 		// prefix(arrayValue, n): the first n elements of an array value as a byte sequence
 		v := e.sx(env, n.Args[0])
